@@ -33,13 +33,24 @@ CONSTANTS P,          \* all parties (strings)
           MaxDup,     \* number of duplicated deliveries
           MaxForeign, \* number of foreign / stale / malformed-header injections
           EchoFirst,  \* TRUE: echo field compared before content is verified (code since the fix)
+          EchoCheck,  \* FALSE removes the echo comparison altogether (negative control: NoSplit must then fail)
           KindFlip,   \* TRUE: the adversary may also send the kind (broadcast / p2p) a round does not expect
-          StopAllowed \* TRUE: users may call Stop
+          StopAllowed,\* TRUE: users may call Stop
+          ProtoAborts \* TRUE: a round's own Finalize may abort with culprits it computes (round.Abort)
 
 None == "none"
 NoVH == [j \in P |-> None]
 Byz == P \ Honest
 Rounds == 2..R
+
+\* Nondeterminism of one Accept call that stands for real cryptography:
+\*   view  - does view-dependent content verify although sender and receiver views differ?
+\*   mut   - does a message altered in some field ("mut") still pass the round's verification?
+\*   proto - does the protocol's own Finalize of round proto.r abort, naming proto.c ?
+Flags == [view : BOOLEAN,
+          mut  : IF "mut" \in Variants THEN BOOLEAN ELSE {TRUE},
+          proto: IF ProtoAborts THEN [on : BOOLEAN, r : 2..R, c : SUBSET P] ELSE {[on |-> FALSE, r |-> 2, c |-> {}]}]
+NoFlags == [view |-> FALSE, mut |-> TRUE, proto |-> [on |-> FALSE, r |-> 2, c |-> {}]]
 
 \* header classes a foreign / malformed message may have; "ok" is a well-formed header of this session
 HdrClasses == {"wrongSSID", "wrongProto", "nilData"}
@@ -101,7 +112,7 @@ WithVH(s) ==
 \* handler.go:checkBroadcastHash - every stored message of the current round
 EchoOK(s) ==
   LET r == s.rnd IN
-  IF r = 1 \/ (r-1) \notin ShapeB THEN TRUE
+  IF r = 1 \/ (r-1) \notin ShapeB \/ ~EchoCheck THEN TRUE
   ELSE /\ \A j \in P : s.mq[r][j] # NoMsg => s.mq[r][j].bv = s.vh[r-1]
        /\ \A j \in P : s.bq[r][j] # NoMsg => s.bq[r][j].bv = s.vh[r-1]
 
@@ -111,7 +122,8 @@ AbortS(s, kind, c) == [s EXCEPT !.st = "err", !.ek = kind, !.culp = c]
 ContentOK(s, m, flip) ==
   CASE m.var = "junk" -> FALSE
     [] m.var = "bad"  -> FALSE
-    [] OTHER -> IF m.rd \in ViewDep /\ m.view # ViewUpTo(s.vh, m.rd) THEN ~flip ELSE TRUE
+    [] m.var = "mut"  -> flip.mut
+    [] OTHER -> IF m.rd \in ViewDep /\ m.view # ViewUpTo(s.vh, m.rd) THEN flip.view ELSE TRUE
 
 \* A message whose kind the round does not expect is still stored (newQueue makes slots for every round and
 \* both kinds). Verified on arrival it fails: a broadcast for a round without broadcast is refused by
@@ -167,6 +179,7 @@ Fin(i, s, flip) ==
   ELSE LET s1 == WithVH(s) IN
        IF ~EchoOK(s1) THEN AbortS(s1, "echo", {})
        ELSE IF Sly(s1) # {} THEN AbortS(s1, "proto", Sly(s1))      \* round.Abort returned by Finalize
+       ELSE IF flip.proto.on /\ flip.proto.r = s1.rnd THEN AbortS(s1, "proto", flip.proto.c)
        ELSE IF s1.rnd = R THEN [s1 EXCEPT !.st = "done"]
        ELSE LET r2 == s1.rnd + 1
                 s2 == [s1 EXCEPT !.rnd = r2,
@@ -202,7 +215,7 @@ Init ==
   /\ inj = 0 /\ dup = 0 /\ frn = 0
 
 \* NewMultiHandler: finalize round 1 at once
-StartResult(i) == Fin(i, [Loc(i) EXCEPT !.st = "run"], FALSE)
+StartResult(i) == Fin(i, [Loc(i) EXCEPT !.st = "run"], NoFlags)
 
 Start(i) ==
   /\ st[i] = "new"
@@ -297,7 +310,7 @@ Foreign(x, j, cls) ==
 
 Next ==
   \/ \E i \in Honest : Start(i) \/ Stop(i)
-  \/ \E i \in Honest, x \in net, flip \in BOOLEAN :
+  \/ \E i \in Honest, x \in net, flip \in Flags :
         \/ Accept(i, x, FALSE, flip)
         \/ (dup < MaxDup /\ Accept(i, x, TRUE, flip))
   \/ \E k \in Byz, j \in Honest, r \in Rounds, b \in BOOLEAN, var \in Variants, mim \in Honest : ByzSend(k, j, r, b, var, mim)
